@@ -1,8 +1,8 @@
 (* C07 — parse_sequel on simple declarators: result state and meaning of the opcodes written. *)
 From Coq Require Import List Arith NArith ZArith Lia Bool String.
 Import ListNotations.
-From Cffi Require Import C25.Model C07.Model C07.Realize C07.PyModel C07.Lexer C07.Tokens C07.Specs C07.Parse
-     C07.Sequel.
+From Cffi Require Import C25.Model C07.Model C07.Realize C07.PyModel C07.Lexer C07.Tokens C07.Tables C07.Specs C07.Parse
+     C07.Sequel C07.NoFault.
 
 Local Open Scope nat_scope.
 
@@ -10,12 +10,64 @@ Fixpoint cost (d : decl) : nat :=
   match d with
   | D hdr _ group _ arrays =>
     nstars hdr + List.length arrays + match group with Some (_, d') => S (cost d') | None => 0 end
+    + match d with D _ _ _ funcs _ => List.length funcs end
   end.
 
 Definition ntoks (d : decl) : nat := List.length (sdecl_toks d).
 
+(* ---------------------------------------------------------------- the two look-aheads of a parameter list *)
+Lemma space_not_ident c : is_space c = true -> is_ident_first c = false.
+Proof.
+  unfold is_space. intros H.
+  repeat (apply orb_true_iff in H; destruct H as [H|H]); apply N.eqb_eq in H; subst; reflexivity.
+Qed.
+
+(* get_following_char sees ')' exactly when the next token is ')' *)
+Lemma first_nonspace_lex : forall s k n kd, lex_from s = (k, n, kd) ->
+  N.eqb (first_nonspace s) c_rpar = kind_eqb kd (KChar c_rpar).
+Proof.
+  induction s as [|c s IH]; intros k n kd H.
+  - cbn in H. inversion H; subst. reflexivity.
+  - cbn [lex_from] in H. cbn [first_nonspace].
+    destruct (is_ident_first c) eqn:E1.
+    + assert (Hs : is_space c = false).
+      { destruct (is_space c) eqn:E; [|reflexivity]. apply space_not_ident in E. congruence. }
+      rewrite Hs. inversion H; subst.
+      assert (Hc : N.eqb c c_rpar = false).
+      { destruct (N.eqb c c_rpar) eqn:E; [|reflexivity]. apply N.eqb_eq in E. subst. discriminate. }
+      rewrite Hc. destruct (kw_of _); reflexivity.
+    + destruct (is_space c) eqn:E2.
+      * destruct (lex_from s) as [[k0 n0] kd0] eqn:E. inversion H; subst. apply (IH k0 n kd). reflexivity.
+      * destruct (is_digit c) eqn:E3.
+        { inversion H; subst.
+          destruct (N.eqb c c_rpar) eqn:E; [|reflexivity]. apply N.eqb_eq in E. subst. discriminate. }
+        match type of H with (if ?b then _ else _) = _ => destruct b eqn:E4 end.
+        { inversion H; subst. apply andb_true_iff in E4 as [E4 _]. apply N.eqb_eq in E4. subst. reflexivity. }
+        destruct (N.eqb c 0) eqn:E5.
+        { inversion H; subst. apply N.eqb_eq in E5. subst. reflexivity. }
+        inversion H; subst. reflexivity.
+Qed.
+
+Lemma following_rpar t :
+  N.eqb (following_char t) c_rpar = kind_eqb (t_kind (next_token t)) (KChar c_rpar).
+Proof.
+  unfold following_char, next_token.
+  destruct (lex_from (skipn (t_size t) (t_rest t))) as [[k n] kd] eqn:E. cbn [t_kind].
+  exact (first_nonspace_lex _ _ _ _ E).
+Qed.
+
+(* number_of_commas at a ')' *)
+Lemma commas_at_rpar t : wf t -> t_kind t = KChar c_rpar -> number_of_commas t = 0.
+Proof.
+  intros Hwf Hk. unfold number_of_commas. rewrite (scan_next t Hwf), Hk. reflexivity.
+Qed.
+
+Lemma wf_T input i o : wf (T input i o).
+Proof. unfold T. apply wf_with_out. unfold st. cbn [Nat.iter]. apply wf_next. Qed.
+
 Section Sem.
 Variable g : genv.
+Variable gl : list (str * gkind).
 
 (* the hole *p_current: whatever index it is finally pointed to, the entry point decodes to W of it *)
 Definition HoleSem (lo : nat) (o : list Z) (pc : pcur) (result : Z) (W : mty -> mty) (c : nat) : Prop :=
@@ -36,22 +88,22 @@ Lemma HoleSem_array lo o pc result W c a :
   let oi := Z.of_nat (List.length o) in
   let o1 := fst (retarget_pure o pc result oi) in
   let r1 := snd (retarget_pure o pc result oi) in
-  let o2 := o1 ++ match lenval a with Some n => [OP OP_ARRAY 0; n] | None => [OP OP_OPEN_ARRAY 0] end in
-  HoleSem lo o2 (POut oi) r1 (fun m => W (MArr m (lenval a))) (S c).
+  let o2 := o1 ++ match lenval gl a with Some n => [OP OP_ARRAY 0; n] | None => [OP OP_OPEN_ARRAY 0] end in
+  HoleSem lo o2 (POut oi) r1 (fun m => W (MArr m (lenval gl a))) (S c).
 Proof.
   intros HS Hpc Hlo oi o1 r1 o2 target out'' Hag m n Hm.
   assert (Hl1 : List.length o1 = List.length o) by apply retarget_pure_length.
   cbn [retarget_pure fst snd] in *. unfold oi in *. rewrite Nat2Z.id in *.
   assert (Hl2 : List.length o < List.length o2).
-  { unfold o2. rewrite app_length, Hl1. destruct (lenval a); cbn; lia. }
+  { unfold o2. rewrite app_length, Hl1. destruct (lenval gl a); cbn; lia. }
   (* the new array entry *)
-  assert (Hnew : decodes g (S n) out'' (Z.of_nat (List.length o)) (MArr m (lenval a))).
+  assert (Hnew : decodes g (S n) out'' (Z.of_nat (List.length o)) (MArr m (lenval gl a))).
   { pose proof (Hag (List.length o) ltac:(lia)) as H0. rewrite set_nth_same in H0 by exact Hl2.
     assert (Hnth : nth (List.length o) o2 0%Z =
-                   match lenval a with Some _ => OP OP_ARRAY 0 | None => OP OP_OPEN_ARRAY 0 end).
-    { unfold o2. rewrite app_nth2 by lia. rewrite Hl1, Nat.sub_diag. destruct (lenval a); reflexivity. }
+                   match lenval gl a with Some _ => OP OP_ARRAY 0 | None => OP OP_OPEN_ARRAY 0 end).
+    { unfold o2. rewrite app_nth2 by lia. rewrite Hl1, Nat.sub_diag. destruct (lenval gl a); reflexivity. }
     rewrite Hnth in H0.
-    destruct (lenval a) as [len|] eqn:El.
+    destruct (lenval gl a) as [len|] eqn:El.
     - rewrite GETOP_OP in H0 by (cbv; split; [discriminate | reflexivity]).
       eapply dec_arr; [exact H0| |exact Hm].
       rewrite (Hag (S (List.length o))).
@@ -68,11 +120,42 @@ Proof.
   rewrite set_nth_other by lia. unfold o2. apply nth_error_app1. fold o1. lia.
 Qed.
 
+(* the same for a function suffix without parameters *)
+Lemma HoleSem_func0 lo o pc result W c flags :
+  HoleSem lo o pc result W c -> pc_ok o pc -> lo <= List.length o -> (flags = 0 \/ flags = 2)%Z ->
+  let oi := Z.of_nat (List.length o) in
+  let o1 := fst (retarget_pure o pc result oi) in
+  let r1 := snd (retarget_pure o pc result oi) in
+  let o2 := o1 ++ [OP OP_FUNCTION 0; OP OP_FUNCTION_END flags; OP 0 0] in
+  HoleSem lo o2 (POut oi) r1 (fun m => W (MFun m [] false)) (S c).
+Proof.
+  intros HS Hpc Hlo Hfl oi o1 r1 o2 target out'' Hag m n Hm.
+  assert (Hl1 : List.length o1 = List.length o) by apply retarget_pure_length.
+  cbn [retarget_pure fst snd] in *. unfold oi in *. rewrite Nat2Z.id in *.
+  assert (Hl2 : List.length o2 = List.length o + 3).
+  { unfold o2. rewrite app_length, Hl1. reflexivity. }
+  assert (Hnew : decodes g (S n) out'' (Z.of_nat (List.length o)) (MFun m [] false)).
+  { pose proof (Hag (List.length o) ltac:(lia)) as H0. rewrite set_nth_same in H0 by lia.
+    assert (Hnth : nth (List.length o) o2 0%Z = OP OP_FUNCTION 0).
+    { unfold o2. rewrite app_nth2 by lia. rewrite Hl1, Nat.sub_diag. reflexivity. }
+    rewrite Hnth in H0.
+    rewrite GETOP_OP in H0 by (cbv; split; [discriminate | reflexivity]).
+    eapply dec_func0; [exact H0| |exact Hfl|exact Hm].
+    rewrite (Hag (S (List.length o))) by lia.
+    rewrite set_nth_other by lia. unfold o2. rewrite nth_error_app2 by lia.
+    rewrite Hl1. replace (S (List.length o) - List.length o) with 1 by lia. reflexivity. }
+  specialize (HS (Z.of_nat (List.length o)) out'').
+  replace (n + S c) with (S n + c) by lia.
+  apply HS; [|exact Hnew].
+  intros j Hj. rewrite (Hag j) by lia.
+  rewrite set_nth_other by lia. unfold o2. apply nth_error_app1. fold o1. lia.
+Qed.
+
 Lemma finish_arrays_sem : forall arrs lo o pc result W c,
   HoleSem lo o pc result W c -> pc_ok o pc -> lo <= List.length o ->
-  Forall (fun a => alen_val a <> None) arrs ->
-  let '(o', pc', r') := finish_arrays arrs o pc result in
-  HoleSem lo o' pc' r' (fun m => W (fold_right (fun a acc => MArr acc (lenval a)) m arrs)) (c + List.length arrs)
+  Forall (fun a => alen_val gl a <> None) arrs ->
+  let '(o', pc', r') := finish_arrays gl arrs o pc result in
+  HoleSem lo o' pc' r' (fun m => W (fold_right (fun a acc => MArr acc (lenval gl a)) m arrs)) (c + List.length arrs)
   /\ pc_ok o' pc' /\ List.length o <= List.length o' /\
   (forall j, j < List.length o -> (match pc with POut x => j <> Z.to_nat x | PRes => True end) ->
              nth_error o' j = nth_error o j) /\
@@ -87,11 +170,11 @@ Proof.
     cbn [fst snd] in HS'.
     assert (Hl1 : List.length o1 = List.length o).
     { change o1 with (fst (o1, r1)). rewrite <- E. apply retarget_pure_length. }
-    set (o2 := o1 ++ match lenval a with Some n => [OP OP_ARRAY 0; n] | None => [OP OP_OPEN_ARRAY 0] end) in *.
+    set (o2 := o1 ++ match lenval gl a with Some n => [OP OP_ARRAY 0; n] | None => [OP OP_OPEN_ARRAY 0] end) in *.
     assert (Hl2 : List.length o < List.length o2).
-    { unfold o2. rewrite app_length, Hl1. destruct (lenval a); cbn; lia. }
+    { unfold o2. rewrite app_length, Hl1. destruct (lenval gl a); cbn; lia. }
     specialize (IH lo o2 (POut (Z.of_nat (List.length o))) r1 _ (S c) HS').
-    destruct (finish_arrays arrs o2 (POut (Z.of_nat (List.length o))) r1) as [[o' pc'] r'].
+    destruct (finish_arrays gl arrs o2 (POut (Z.of_nat (List.length o))) r1) as [[o' pc'] r'].
     destruct IH as (A & B & C & D0 & E0); auto; try lia.
     { cbn. lia. }
     split; [|split; [|split; [|split]]]; auto; try lia.
@@ -205,6 +288,8 @@ Variable g : genv.
 Variable input : str.
 Variable toks : kinds_texts.
 Hypothesis L : lexed input toks.
+Notation gl := (c_globals cx).
+Hypothesis Hgl : table_ok (map fst gl).
 
 Notation T := (T input).
 Notation K := (K toks).
@@ -232,17 +317,72 @@ Proof.
   cbn [andb orb Z.eqb]. rewrite T_out. reflexivity.
 Qed.
 
+Lemma set_nth_app_mid : forall (a : list Z) x y z v, set_nth (a ++ [x; y; z]) (S (List.length a)) v = a ++ [x; v; z].
+Proof. induction a as [|h a IH]; intros; cbn; [reflexivity|]. f_equal. apply IH. Qed.
+
+(* a parameter list "( )" or "( void )": OP_FUNCTION, OP_FUNCTION_END and one spare slot *)
+Lemma parens_func0 f i o pc result cfg (void : bool) :
+  K i = KChar c_lpar ->
+  (if void then K (S i) = KKw K_void /\ K (S (S i)) = KChar c_rpar else K (S i) = KChar c_rpar) ->
+  pc_ok o pc -> List.length o + 3 <= osz ->
+  parens osz cx (S f) (T i o) pc result None cfg =
+  parens osz cx f (T ((if void then 3 else 2) + i)
+                     (fst (retarget_pure o pc result (Z.of_nat (List.length o)))
+                        ++ [OP OP_FUNCTION 0; OP OP_FUNCTION_END 0; OP 0 0]))
+         (POut (Z.of_nat (List.length o))) (snd (retarget_pure o pc result (Z.of_nat (List.length o))))
+         None (cfg - 1).
+Proof.
+  intros H0 Hv Hpc Hroom. cbn [parens]. unfold is_ch at 1. rewrite (kind_T _ _ L), H0. cbn [kind_eqb].
+  rewrite N.eqb_refl. rewrite T_next.
+  pose proof (retarget_pure_length o pc result (Z.of_nat (List.length o))) as Hl1.
+  set (o1 := fst (retarget_pure o pc result (Z.of_nat (List.length o)))) in *.
+  set (r1 := snd (retarget_pure o pc result (Z.of_nat (List.length o)))) in *.
+  assert (Hset : forall j, set_out (T j (((o1 ++ [OP OP_FUNCTION 0]) ++ [OP 0 0]) ++ [OP 0 0]))
+                   (Z.of_nat (List.length o1) + 1) (OP OP_FUNCTION_END 0) =
+                 Ok (T j (o1 ++ [OP OP_FUNCTION 0; OP OP_FUNCTION_END 0; OP 0 0]))).
+  { intros j. unfold set_out. rewrite T_out.
+    assert (E : ((0 <=? Z.of_nat (List.length o1) + 1)%Z &&
+                 (Z.of_nat (List.length o1) + 1 <? Z.of_nat (List.length (((o1 ++ [OP OP_FUNCTION 0]) ++ [OP 0 0]) ++ [OP 0 0])))%Z)%bool = true).
+    { apply andb_true_iff; split; [apply Z.leb_le | apply Z.ltb_lt]; rewrite ?app_length; cbn [List.length]; lia. }
+    rewrite E. rewrite T_with_out. f_equal. f_equal.
+    replace (Z.to_nat (Z.of_nat (List.length o1) + 1)) with (S (List.length o1)) by lia.
+    rewrite <- !app_assoc. cbn [app]. apply set_nth_app_mid. }
+  destruct void.
+  - destruct Hv as [H1 H2]. rewrite (kind_T _ _ L), H1.
+    unfold is_ch, is_kw. rewrite !(kind_T _ _ L), H1. cbn [kind_eqb kw_eqb orb]. rewrite andb_false_r.
+    rewrite following_rpar, T_next, (kind_T _ _ L), H2. cbn [kind_eqb]. rewrite N.eqb_refl. cbn [andb].
+    rewrite commas_at_rpar by (try apply wf_T; rewrite (kind_T _ _ L); exact H2).
+    rewrite T_out. rewrite retarget_ok by exact Hpc. fold o1 r1. cbn [bind].
+    rewrite (write_ds_ok osz input) by lia. cbn [bind reserve].
+    rewrite (write_ds_ok osz input) by (rewrite app_length; cbn; lia). cbn [bind].
+    rewrite (write_ds_ok osz input) by (rewrite !app_length; cbn; lia). cbn [bind].
+    rewrite !(kind_T _ _ L), H2. cbn [kind_eqb]. rewrite N.eqb_refl. cbn [negb bind].
+    rewrite Hset. cbn [bind]. rewrite (kind_T _ _ L), H2. cbn [kind_eqb]. rewrite N.eqb_refl. cbn [negb].
+    rewrite T_next. reflexivity.
+  - rewrite (kind_T _ _ L), Hv.
+    unfold is_ch, is_kw. rewrite !(kind_T _ _ L), Hv. cbn [kind_eqb kw_eqb orb andb].
+    change (N.eqb c_rpar c_star) with false. change (N.eqb c_rpar c_lbr) with false. cbn [orb]. rewrite andb_false_r.
+    rewrite commas_at_rpar by (try apply wf_T; rewrite (kind_T _ _ L); exact Hv).
+    rewrite T_out. rewrite retarget_ok by exact Hpc. fold o1 r1. cbn [bind].
+    rewrite (write_ds_ok osz input) by lia. cbn [bind reserve].
+    rewrite (write_ds_ok osz input) by (rewrite app_length; cbn; lia). cbn [bind].
+    rewrite (write_ds_ok osz input) by (rewrite !app_length; cbn; lia). cbn [bind].
+    rewrite !(kind_T _ _ L), Hv. cbn [kind_eqb]. rewrite N.eqb_refl. cbn [negb bind].
+    rewrite Hset. cbn [bind]. rewrite (kind_T _ _ L), Hv. cbn [kind_eqb]. rewrite N.eqb_refl. cbn [negb].
+    rewrite T_next. reflexivity.
+Qed.
+
 Lemma stopper_not_ident k : stopper k -> forall A (x y : A), match k with KIdent => x | _ => y end = y.
 Proof. intros [->|[->|[->| ->]]] A x y; reflexivity. Qed.
 
-Lemma sdecl_first_star d : sdecl d -> starts_star d = true ->
+Lemma sdecl_first_star d : sdecl gl d -> starts_star d = true ->
   exists rest, sdecl_toks d = (KChar c_star, [c_star]) :: rest.
 Proof.
-  intros Hd Hs. destruct Hd as [hdr arrays _ _|hdr arrays d' _ _ _ _];
+  intros Hd Hs. destruct Hd as [hdr arrays _ _|hdr arrays d' _ _ _ _|hdr d' void _ _ _];
     (destruct hdr as [|[|q|a] hdr]; cbn in Hs; try discriminate; cbn; eexists; reflexivity).
 Qed.
 
-Theorem sequel_run : forall d, sdecl d -> forall f i o outer,
+Theorem sequel_run : forall d, sdecl gl d -> forall f i o outer,
   At i (sdecl_toks d) -> final_stop (K (i + ntoks d)) ->
   List.length o + nops d <= osz -> ntoks d + 1 < f ->
   exists o' idx,
@@ -250,11 +390,15 @@ Theorem sequel_run : forall d, sdecl d -> forall f i o outer,
     List.length o' = List.length o + nops d /\
     (forall j, j < List.length o -> nth_error o' j = nth_error o j) /\
     (forall out'', agree out'' o' (List.length o) (List.length o') ->
-       forall m n, decodes g n out'' outer m -> decodes g (n + cost d) out'' idx (apply_decl d m)).
+       forall m n, decodes g n out'' outer m -> decodes g (n + cost d) out'' idx (apply_decl gl d m)).
 Proof.
-  induction 1 as [hdr arrays Hh Ha | hdr arrays d' Hh Ha Hd' IH Hst]; intros f i o outer Hat Hfin Hroom Hf.
+  induction 1 as [hdr arrays Hh Ha | hdr arrays d' Hh Ha Hd' IH Hst | hdr d' void Hh Hd' IH Hst];
+    intros f i o outer Hat Hfin Hroom Hf.
   - (* no grouping *)
-    unfold ntoks in *. cbn [sdecl_toks nops cost apply_decl] in *. rewrite app_nil_l in *.
+    unfold ntoks in *. cbn [sdecl_toks nops cost apply_decl fold_right] in *.
+    change (List.concat (map fs_toks [])) with (@nil (kind * str)) in *;
+    change (3 * @List.length fsuffix []) with 0 in *; change (@List.length fsuffix []) with 0 in *.
+    rewrite !app_nil_l in *.
     rewrite app_length, map_length in *.
     apply At_app in Hat as [Hat1 Hat2]. rewrite map_length in Hat2.
     destruct f as [|f]; [lia|]. rewrite parse_sequel_S.
@@ -284,17 +428,17 @@ Proof.
     cbn [bind].
     pose proof (hdr_out_length hdr o outer) as Hlh.
     destruct (hdr_out hdr o outer) as [oh outer1] eqn:Eh. cbn [fst snd] in *.
-    rewrite (brackets_run osz cx input toks L arrays (S f) (i + List.length hdr) oh PRes 0%Z); auto; try lia.
+    rewrite (brackets_run osz cx input toks L Hgl arrays (S f) (i + List.length hdr) oh PRes 0%Z); auto; try lia.
     2:{ fold na. rewrite <- Nat.add_assoc. destruct Hfin as [->| ->]; discriminate. }
     2:{ exact I. }
     2:{ assert (List.length arrays <= na).
         { subst na. clear. induction arrays as [|a l IH]; cbn; [lia|]. rewrite app_length. destruct a; cbn; lia. }
         lia. }
     cbn [bind]. fold na.
-    pose proof (finish_arrays_sem g arrays (List.length o) oh PRes 0%Z (fun m => m) 0
+    pose proof (finish_arrays_sem g gl arrays (List.length o) oh PRes 0%Z (fun m => m) 0
                   (HoleSem_init g _ _) I ltac:(lia) Ha) as Hsem.
-    pose proof (finish_arrays_length arrays oh PRes 0%Z Ha) as Hlen.
-    destruct (finish_arrays arrays oh PRes 0%Z) as [[of pcf] rf]. cbn [fst snd] in *.
+    pose proof (finish_arrays_length cx arrays oh PRes 0%Z Ha) as Hlen.
+    destruct (finish_arrays gl arrays oh PRes 0%Z) as [[of pcf] rf]. cbn [fst snd] in *.
     destruct Hsem as (HS & Hpcf & Hle & Hpres & Hpcfact).
     rewrite retarget_ok by exact Hpcf. cbn [bind].
     eexists. eexists. split; [rewrite Nat.add_assoc; reflexivity|].
@@ -312,14 +456,18 @@ Proof.
     destruct (Has P1 P2 P3) as [Has1 Has2].
     split; [exact Has1|].
     intros out'' Hag m n Hm.
-    replace (n + (nstars hdr + List.length arrays + 0)) with (n + (nstars hdr + (0 + List.length arrays))) by lia.
+    match goal with |- decodes _ ?k _ _ _ =>
+      replace k with (n + (nstars hdr + (0 + List.length arrays))) by lia end.
     apply Has2; assumption.
   - (* grouping parentheses *)
     assert (Hnt : ntoks (D hdr None (Some (None, d')) [] arrays) =
                   List.length hdr + (S (ntoks d' + 1) + List.length (List.concat (map alen_toks arrays)))).
     { unfold ntoks. cbn [sdecl_toks]. rewrite !app_length, map_length. cbn [List.length]. reflexivity. }
     rewrite Hnt in *. clear Hnt. unfold ntoks in *.
-    cbn [sdecl_toks nops cost apply_decl] in Hat, Hroom |- *.
+    cbn [sdecl_toks nops cost apply_decl fold_right] in Hat, Hroom |- *.
+    change (List.concat (map fs_toks [])) with (@nil (kind * str)) in *;
+    change (3 * @List.length fsuffix []) with 0 in *; change (@List.length fsuffix []) with 0 in *.
+    rewrite ?app_nil_l in *.
     apply At_app in Hat as [Hat1 Hat2]. rewrite map_length in Hat2.
     apply At_app in Hat2 as [Hat2 Hat3].
     apply At_cons in Hat2 as [Hlp Hat2]. apply At_app in Hat2 as [Hin Hrp].
@@ -370,7 +518,7 @@ Proof.
     destruct f as [|f]; [lia|].
     rewrite parens_stop by exact Hnolp. cbn [bind].
     assert (Hxlt : List.length oh < List.length og) by (rewrite Hlg, app_length; cbn; lia).
-    rewrite (brackets_run osz cx input toks L arrays (S (S f)) (S (S p + nd)) og
+    rewrite (brackets_run osz cx input toks L Hgl arrays (S (S f)) (S (S p + nd)) og
                (POut (Z.of_nat (List.length oh))) (OP (GETOP 0) x')); auto; try lia.
     2:{ replace (S (S p + nd)) with (p + S (nd + 1)) by lia. exact Hat3. }
     2:{ fold na. replace (S (S p + nd) + na) with (i + (List.length hdr + (S (nd + 1) + na))) by lia.
@@ -385,15 +533,15 @@ Proof.
     { rewrite Hpg by (rewrite app_length; cbn; lia). rewrite nth_error_app2 by lia.
       rewrite Nat.sub_diag. reflexivity. }
     assert (HS0 : HoleSem g (List.length o) og (POut (Z.of_nat (List.length oh))) (OP (GETOP 0) x')
-                          (apply_decl d') (S (cost d'))).
+                          (apply_decl gl d') (S (cost d'))).
     { apply HoleSem_group; auto; try lia.
       intros out'' Hag m n Hm. apply Hsg; [|exact Hm].
       rewrite app_length. cbn [List.length]. replace (List.length oh + 1) with (S (List.length oh)) by lia.
       exact Hag. }
-    pose proof (finish_arrays_sem g arrays (List.length o) og (POut (Z.of_nat (List.length oh)))
+    pose proof (finish_arrays_sem g gl arrays (List.length o) og (POut (Z.of_nat (List.length oh)))
                   (OP (GETOP 0) x') _ _ HS0) as Hsem.
-    pose proof (finish_arrays_length arrays og (POut (Z.of_nat (List.length oh))) (OP (GETOP 0) x') Ha) as Hlen.
-    destruct (finish_arrays arrays og (POut (Z.of_nat (List.length oh))) (OP (GETOP 0) x')) as [[of pcf] rf].
+    pose proof (finish_arrays_length cx arrays og (POut (Z.of_nat (List.length oh))) (OP (GETOP 0) x') Ha) as Hlen.
+    destruct (finish_arrays gl arrays og (POut (Z.of_nat (List.length oh))) (OP (GETOP 0) x')) as [[of pcf] rf].
     cbn [fst snd] in *.
     destruct Hsem as (HS & Hpcf & Hle & Hpres & Hpcfact); auto; try lia.
     { cbn. lia. }
@@ -415,8 +563,125 @@ Proof.
     destruct (Has P1 P2 P3) as [Has1 Has2].
     split; [exact Has1|].
     intros out'' Hag m n Hm.
-    replace (n + (nstars hdr + List.length arrays + S (cost d')))
-      with (n + (nstars hdr + (S (cost d') + List.length arrays))) by lia.
+    match goal with |- decodes _ ?k _ _ _ =>
+      replace k with (n + (nstars hdr + (S (cost d') + List.length arrays))) by lia end.
+    apply Has2; assumption.
+  - (* grouping parentheses followed by an empty parameter list *)
+    set (nf := if void then 3 else 2).
+    assert (Hnt : ntoks (D hdr None (Some (None, d')) [F [] void false] []) =
+                  List.length hdr + (S (ntoks d' + 1) + nf)).
+    { unfold ntoks, nf. cbn [sdecl_toks map List.concat fs_toks]. rewrite ?app_length, map_length.
+      destruct void; cbn [List.length app]; rewrite ?app_length; cbn [List.length]; lia. }
+    rewrite Hnt in *. clear Hnt. unfold ntoks in *.
+    cbn [sdecl_toks nops cost apply_decl fold_right map List.concat fs_toks] in Hat, Hroom |- *.
+    rewrite ?app_nil_r in Hat.
+    apply At_app in Hat as [Hat1 Hat2]. rewrite map_length in Hat2.
+    apply At_app in Hat2 as [Hat2 Hat3].
+    apply At_cons in Hat2 as [Hlp Hat2]. apply At_app in Hat2 as [Hin Hrp].
+    apply At_cons in Hrp as [Hrp _].
+    cbn [List.length app] in Hat3. rewrite app_length in Hat3. cbn [List.length] in Hat3.
+    set (nd := List.length (sdecl_toks d')) in *.
+    set (p := i + List.length hdr) in *.
+    destruct f as [|f]; [lia|]. rewrite parse_sequel_S.
+    assert (HK0 : K p = KChar c_lpar) by (rewrite (At_K _ _ _ Hlp); reflexivity).
+    assert (Hstop1 : stopper (K p)) by (rewrite HK0; unfold stopper; auto).
+    rewrite (header_run osz input toks L hdr f i o outer None); auto; try lia.
+    2:{ intros j Hj. rewrite map_length in Hj. specialize (Hat1 j). rewrite map_length in Hat1.
+        specialize (Hat1 Hj). rewrite nth_error_map in Hat1.
+        destruct (nth_error hdr j) eqn:E; [|apply nth_error_None in E; lia].
+        cbn in Hat1. rewrite (At_K _ _ _ Hat1). cbn.
+        rewrite (nth_indep _ KEnd (hkind h)) by (rewrite map_length; lia). rewrite map_nth.
+        f_equal. symmetry. apply nth_error_nth. exact E. }
+    cbn [bind]. fold p. rewrite (kind_T _ _ L). rewrite stopper_not_ident by exact Hstop1.
+    destruct f as [|f]; [unfold nf in Hf; destruct void; lia|].
+    destruct (sdecl_first_star d' Hd' Hst) as [rest Efirst].
+    assert (HK1 : K (S p) = KChar c_star).
+    { rewrite Efirst in Hin. apply At_cons in Hin as [H0 _]. rewrite (At_K _ _ _ H0). reflexivity. }
+    pose proof (hdr_out_length hdr o outer) as Hlh.
+    destruct (hdr_out hdr o outer) as [oh outer1] eqn:Eh. cbn [fst snd] in *.
+    rewrite (parens_group f p oh HK0 HK1).
+    rewrite (write_ds_ok osz input) by lia. cbn [bind].
+    destruct (IH f (S p) (oh ++ [OP OP_NOOP 0]) (Z.of_nat (List.length oh))) as (og & x' & Hrun & Hlg & Hpg & Hsg).
+    { exact Hin. }
+    { right. match goal with |- Parse.K _ ?e = _ => replace e with (S p + nd) by (subst nd p; lia) end.
+      rewrite (At_K _ _ _ Hrp). reflexivity. }
+    { rewrite app_length. cbn [List.length]. lia. }
+    { fold nd. unfold nf in Hf. destruct void; lia. }
+    fold nd in Hrun. rewrite Hrun. cbn [bind].
+    assert (HKr : K (S p + nd) = KChar c_rpar).
+    { rewrite (At_K _ _ _ Hrp). reflexivity. }
+    unfold is_ch at 1. rewrite (kind_T _ _ L), HKr. cbn [kind_eqb]. rewrite N.eqb_refl. cbn [negb].
+    rewrite T_next.
+    set (q := S (S p + nd)) in *.
+    replace (p + S (nd + 1)) with q in Hat3 by (subst q; lia).
+    assert (Hxlt : List.length oh < List.length og) by (rewrite Hlg, app_length; cbn; lia).
+    destruct f as [|f]; [unfold nf in Hf; destruct void; lia|].
+    assert (Hfk : K q = KChar c_lpar /\
+                  (if void then K (S q) = KKw K_void /\ K (S (S q)) = KChar c_rpar else K (S q) = KChar c_rpar)).
+    { apply At_cons in Hat3 as [Ha0 Hat3]. split; [rewrite (At_K _ _ _ Ha0); reflexivity|].
+      destruct void; cbn [app] in Hat3.
+      - apply At_cons in Hat3 as [Ha1 Hat3]. apply At_cons in Hat3 as [Ha2 _].
+        rewrite (At_K _ _ _ Ha1), (At_K _ _ _ Ha2). split; reflexivity.
+      - apply At_cons in Hat3 as [Ha1 _]. rewrite (At_K _ _ _ Ha1). reflexivity. }
+    destruct Hfk as [Hq0 Hq1].
+    assert (Hroom3 : List.length og + 3 <= osz).
+    { rewrite Hlg, app_length. cbn [List.length list_sum map fold_right Nat.mul] in *. lia. }
+    rewrite (parens_func0 f q og (POut (Z.of_nat (List.length oh))) (OP (GETOP 0) x') (1 - 1)%Z void Hq0 Hq1)
+      by (first [exact Hroom3 | cbn; lia]).
+    fold nf.
+    assert (Hend : final_stop (K (nf + q))).
+    { replace (nf + q) with (i + (List.length hdr + (S (nd + 1) + nf))) by (subst q p; lia). exact Hfin. }
+    destruct f as [|f]; [unfold nf in Hf; destruct void; lia|].
+    rewrite parens_stop by (unfold is_ch; rewrite (kind_T _ _ L); destruct Hend as [->| ->]; reflexivity).
+    cbn [bind].
+    set (oi := Z.of_nat (List.length og)) in *.
+    set (o1 := fst (retarget_pure og (POut (Z.of_nat (List.length oh))) (OP (GETOP 0) x') oi)) in *.
+    set (r1 := snd (retarget_pure og (POut (Z.of_nat (List.length oh))) (OP (GETOP 0) x') oi)) in *.
+    set (of := o1 ++ [OP OP_FUNCTION 0; OP OP_FUNCTION_END 0; OP 0 0]) in *.
+    assert (Hl1 : List.length o1 = List.length og) by apply retarget_pure_length.
+    assert (Hlof : List.length of = List.length og + 3) by (unfold of; rewrite app_length, Hl1; reflexivity).
+    assert (Hpcf : pc_ok of (POut oi)) by (unfold pc_ok; rewrite Hlof; unfold oi; lia).
+    rewrite (brackets_run osz cx input toks L Hgl [] (S (S (S f))) (nf + q) of (POut oi) r1).
+    2:{ intros j Hj. cbn in Hj. lia. }
+    2:{ constructor. }
+    2:{ cbn [map List.concat List.length]. rewrite Nat.add_0_r. destruct Hend as [->| ->]; discriminate. }
+    2:{ exact Hpcf. }
+    2:{ cbn [map list_sum fold_right]. lia. }
+    2:{ cbn [List.length]. lia. }
+    cbn [map List.concat List.length finish_arrays fst snd bind]. rewrite Nat.add_0_r.
+    rewrite retarget_ok by exact Hpcf. cbn [bind].
+    assert (Hnoop : nth_error og (List.length oh) = Some (OP OP_NOOP 0)).
+    { rewrite Hpg by (rewrite app_length; cbn; lia). rewrite nth_error_app2 by lia.
+      rewrite Nat.sub_diag. reflexivity. }
+    assert (HS0 : HoleSem g (List.length o) og (POut (Z.of_nat (List.length oh))) (OP (GETOP 0) x')
+                          (apply_decl gl d') (S (cost d'))).
+    { apply HoleSem_group; auto; try lia.
+      intros out'' Hag m n Hm. apply Hsg; [|exact Hm].
+      rewrite app_length. cbn [List.length]. replace (List.length oh + 1) with (S (List.length oh)) by lia.
+      exact Hag. }
+    pose proof (HoleSem_func0 g (List.length o) og (POut (Z.of_nat (List.length oh))) (OP (GETOP 0) x')
+                  _ _ 0%Z HS0 ltac:(cbn; lia) ltac:(lia) ltac:(left; reflexivity)) as HS.
+    cbv zeta in HS. fold oi o1 r1 of in HS.
+    eexists. eexists. split.
+    { replace (i + (List.length hdr + (S (nd + 1) + nf))) with (nf + q) by (subst q p; lia). reflexivity. }
+    split; [rewrite retarget_pure_length, Hlof, Hlg, app_length; cbn [List.length list_sum map fold_right]; lia|].
+    assert (Eoh : oh = fst (hdr_out hdr o outer)) by (rewrite Eh; reflexivity).
+    assert (Eo1 : outer1 = snd (hdr_out hdr o outer)) by (rewrite Eh; reflexivity).
+    rewrite Eo1.
+    pose proof (assemble g hdr o outer of (POut oi) r1 _ _ HS) as Has.
+    rewrite <- Eoh in Has. cbv zeta in Has.
+    assert (P1 : List.length oh <= List.length of) by lia.
+    assert (P2 : forall j, j < List.length oh -> nth_error of j = nth_error oh j).
+    { intros j Hj. unfold of. rewrite nth_error_app1 by lia. unfold o1. cbn [retarget_pure fst].
+      rewrite set_nth_other by (rewrite Nat2Z.id; lia).
+      rewrite Hpg by (rewrite app_length; cbn; lia). apply nth_error_app1. exact Hj. }
+    assert (P3 : POut oi = PRes \/ exists x, POut oi = POut x /\ (Z.of_nat (List.length oh) <= x)%Z).
+    { right. exists oi. split; [reflexivity | unfold oi; lia]. }
+    destruct (Has P1 P2 P3) as [Has1 Has2].
+    split; [exact Has1|].
+    intros out'' Hag m n Hm.
+    match goal with |- decodes _ ?k _ _ _ =>
+      replace k with (n + (nstars hdr + (S (S (cost d'))))) by lia end.
     apply Has2; assumption.
 Qed.
 
